@@ -267,12 +267,12 @@ func (a *AnySchema) checkAndConvert(data any) (any, error) {
 		return result, nil
 	case reflect.Map:
 		result := make(map[any]any, t.Len())
-		for _, k := range t.MapKeys() {
+		for iter := t.MapRange(); iter.Next(); {
+			k, v := iter.Key(), iter.Value()
 			key, err := a.checkAndConvert(k.Interface())
 			if err != nil {
 				return nil, ConstraintErrorAddPathSegment(err, fmt.Sprintf("{%v}", k))
 			}
-			v := t.MapIndex(k)
 			value, err := a.checkAndConvert(v.Interface())
 			if err != nil {
 				return nil, ConstraintErrorAddPathSegment(err, fmt.Sprintf("[%v]", key))
